@@ -13,6 +13,8 @@ pub mod c12;
 pub mod c13;
 pub mod c14;
 pub mod c15;
+pub mod c16;
+pub mod c18;
 pub mod c20;
 
 /// field path with the concrete port / item index removed (stable signatures)
@@ -21,7 +23,7 @@ pub fn c13_generic(path: &str) -> String {
 	p.split('.').filter(|c| !(c.len() == 2 && c.starts_with('P'))).map(|c| if c.starts_with("item[") { "item[k]" } else { c }).collect::<Vec<_>>().join(".")
 }
 
-pub const IDS: &[&str] = &["C01", "C02", "C03", "C04", "C06", "C07", "C09", "C10", "C11", "C12", "C13", "C14", "C15", "C20"];
+pub const IDS: &[&str] = &["C01", "C02", "C03", "C04", "C06", "C07", "C09", "C10", "C11", "C12", "C13", "C14", "C15", "C16", "C18", "C20"];
 
 pub fn get(id: &str) -> Option<Box<dyn Monitor>> {
 	Some(match id {
@@ -37,6 +39,8 @@ pub fn get(id: &str) -> Option<Box<dyn Monitor>> {
 		"C12" => Box::new(c12::C12::new()),
 		"C13" => Box::new(c13::C13::new()),
 		"C15" => Box::new(c15::C15),
+		"C16" => Box::new(c16::C16),
+		"C18" => Box::new(c18::C18::new()),
 		"C20" => Box::new(c20::C20),
 		"C14" => Box::new(c14::C14::new()),
 		_ => return None,
